@@ -1449,6 +1449,12 @@ func handleClientMessage(c *webClient, m clientMessage) error {
 			},
 		)
 		if err != nil {
+			// AddClient sets our username and permissions before
+			// it decides whether to admit us
+			username := c.username
+			c.Init("", nil)
+			c.setData(nil)
+
 			var e, s string
 			var autherr *group.NotAuthorisedError
 			if errors.Is(err, group.ErrUsernameRequired) {
@@ -1469,7 +1475,6 @@ func handleClientMessage(c *webClient, m clientMessage) error {
 				s = "internal server error"
 				log.Printf("Join group: %v", err)
 			}
-			username := c.username
 			return c.write(clientMessage{
 				Type:     "joined",
 				Kind:     "fail",
